@@ -13,6 +13,7 @@ from __future__ import annotations
 
 import collections
 import itertools
+import time
 
 from vlib import common as V
 
@@ -403,9 +404,13 @@ def run(env):
                 cases += cs
         return cases
 
+    timing = {}
+    t0 = time.time()
     # (1) exhaustive, with Coq cases
     items = [(s, depth, f, True) for s in sources for f in range(len(ops_for(s)))]
     cases = absorb(V.pmap(explore, items, timeout=600), items, True)
+    timing["exhaustive_impl_s"] = round(time.time() - t0, 1)
+    t0 = time.time()
     env.count(sum(len(c[1]) for c in cases),
               (hash((c[0], c[1])) for c in cases if c[0] and len(c[1]) >= 2))
     for i in range(0, len(cases), 240000):
@@ -415,6 +420,8 @@ def run(env):
         mid = cases[len(cases) // 2]
         env.sample({"exhaustive": hist_json(mid[0], mid[1]), "outputs": [show_out(o) for o in mid[2]]})
     del cases
+    timing["exhaustive_coq_s"] = round(time.time() - t0, 1)
+    t0 = time.time()
 
     # (2) one level deeper against the plain-list oracle only
     if deep:
@@ -424,6 +431,8 @@ def run(env):
         env.count(total_obs - before)
         env.note("oracle_only_histories", lens[deep])
 
+    timing["oracle_only_s"] = round(time.time() - t0, 1)
+    t0 = time.time()
     # (3) random long histories
     ritems = random_histories(env, n_random)
     res = V.pmap(run_random, ritems, timeout=20)
@@ -446,6 +455,8 @@ def run(env):
         env.sample({"random": hist_json(c[0], c[1]), "outputs": [show_out(o) for o in c[2]]})
     env.sample({"obligation": "C13 : forall src ops, Forall op_ok ops -> masked outputs of run (init src) ops = map (spec . src) ops (induction, no bound)"})
 
+    timing["random_s"] = round(time.time() - t0, 1)
+    env.note("phase_seconds", timing)
     env.note("sources_exhaustive", len(sources))
     env.note("operations_per_source", {len(s): len(ops_for(s)) for s in [(), (0,), (0, 1), (0, 1, 2)]})
     env.note("op_kind_distribution", dict(sorted(kinds.items())))
